@@ -21,7 +21,7 @@ require (
 
 replace github.com/google/jsonschema-go => $S/repo
 
-replace verif.local/simrt => /verif/simrt
+replace verif.local/simrt => $PWD/simrt
 EOM
 cp /repo/go.sum "$S/go.sum" 2>/dev/null || true
 (cd sim && go build -tags verif,purego -modfile="$S/go.mod" -o "$S/simrun" ./cmd/simrun && go build -race -tags verif,purego -modfile="$S/go.mod" -o "$S/simrun.race" ./cmd/simrun)
